@@ -545,6 +545,14 @@ class Interp:
                 return [(s2, b) for s2, b in self.truth(args[0], st, "")]
             if self.track_raises and self._is_exception_class(fn.text):
                 return [(st, ExcVal(fn.text, tuple(args), tuple(sorted(kwargs.items(), key=lambda kv: kv[0]))))]
+            if getattr(self, "interpret_private", False):
+                # a private module-level function of the package (a named piece of the caller): interpret its body
+                f2 = self.repo.funcs.get(fn.text)
+                if f2 is not None and f2.cls is None and f2.name.startswith("_") and not isinstance(f2.node, ast.Lambda) and depth < self.max_depth:
+                    try:
+                        return self.call_func(f2, list(args), dict(kwargs), st, depth + 1)
+                    except AnalysisError:
+                        pass
             return self.hooks.external_call(self, fn.text, args, kwargs, st, func, node)
         if isinstance(fn, _Top):
             return [(st, TOP)]
@@ -923,6 +931,41 @@ class Interp:
                     return [(st, any(subj.cls == q or self.repo.is_subclass(subj.cls, q) for q in quals), env)]
                 if isinstance(subj, Sym):
                     return [(s2, b, env) for s2, b in self.atom(f"isinstance({subj.text}, {quals[0]})", st)]
+        if isinstance(p, ast.MatchClass) and not p.patterns and p.kwd_patterns:
+            # `Cls(attr=<pattern>, ...)`: isinstance(subject, Cls) and every attribute matches its sub-pattern
+            quals = self._class_quals(p.cls, func)
+            if quals is not None:
+                if isinstance(subj, Obj) and subj.cls in self.repo.classes:
+                    first = [(st, any(subj.cls == q or self.repo.is_subclass(subj.cls, q) for q in quals))]
+                elif isinstance(subj, Sym):
+                    first = list(self.atom(f"isinstance({subj.text}, {quals[0]})", st))
+                elif isinstance(subj, _Top):
+                    first = [(st, True), (st.copy(), False)]
+                else:
+                    first = [(st, False)]
+                outs = []
+                for s1, isinst in first:
+                    if not isinst:
+                        outs.append((s1, False, env))
+                        continue
+                    pending = [(s1, env)]
+                    for attr, sub in zip(p.kwd_attrs, p.kwd_patterns):
+                        nxt = []
+                        for s2, e2 in pending:
+                            if isinstance(subj, Obj):
+                                val = s2.heap.get(subj.name, {}).get(attr, TOP)
+                            elif isinstance(subj, Sym):
+                                val = Sym(f"{subj.text}.{attr}")
+                            else:
+                                val = TOP
+                            for s3, m, e3 in self._match_pattern(sub, val, e2, s2, func, depth):
+                                if m:
+                                    nxt.append((s3, e3))
+                                else:
+                                    outs.append((s3, False, env))
+                        pending = nxt
+                    outs += [(s2, True, e2) for s2, e2 in pending]
+                return outs
         raise AnalysisError(f"abstract interpreter: unsupported match pattern `{ast.unparse(p)[:60]}` in {func.qualname}")
 
     def _assign(self, t: ast.AST, v, env: dict, st: State, func: Func, depth: int):
